@@ -6,6 +6,8 @@ DOC = {
     'not_decided': ['that the set of persisted-write subsets always yields exactly one commit point (needs crash enumeration)'],
 }
 
+WITNESSES = ['C01W1Fail', 'C01W1Twin', 'C01W2Fail', 'C01W2Twin']
+
 
 def rules(ctx):
     S.c01_r1_commit_protocol(ctx)
